@@ -274,6 +274,14 @@ func runC18(e *Env, p *Plan) {
 		for _, d := range e.N.Dials() {
 			if d.CallStep > a.CloseDoneAt && d.Addr == addr && d.G != "" && isClientDial(d.G) {
 				late++
+				// The excused window is a few statements wide and takes no simulated time
+				// (the library sleeps before the check, not between check and dial). A
+				// dial called at a later simulated instant than the closer's return was
+				// decided on after the close: the closed client reconnected.
+				if d.CallAt > a.CloseDoneT {
+					e.Violate("C18.no-dial-after-close", "the closed client reconnects: a dial was started at %v, %v of simulated time after the closer returned (step %d, dial at step %d)", d.CallAt, d.CallAt-a.CloseDoneT, a.CloseDoneAt, d.CallStep)
+					break
+				}
 				if late > 1 {
 					e.Violate("C18.no-dial-after-close", "the closed client keeps reconnecting: dial number %d after the closer returned (step %d) was started at step %d (%v)", late, a.CloseDoneAt, d.CallStep, d.At)
 					break
